@@ -114,6 +114,16 @@ def deep_copy(v):
 
 def call_numpy(it, name, mod, fn, args, kwargs, node, fr):
     from . import imgdom
+    if mod == "numpy" and fn in ("array", "asarray", "asanyarray", "ascontiguousarray") and args and kwargs.get("dtype") is not None:
+        # np.asarray(x, dtype=D) is np.asarray(x).astype(D); a conversion to double precision keeps every value of the abstract (real) domain
+        dt_ = kwargs.get("dtype")
+        rest_ = {k_: v_ for k_, v_ in dict.items(kwargs) if k_ != "dtype"}
+        r_ = call_numpy(it, name, mod, fn, args, rest_, node, fr)
+        wide = (isinstance(dt_, Ref) and dt_.name in ("builtins.float", "numpy.float64", "numpy.double", "numpy.longdouble", "numpy.float_")) \
+            or (is_pyconst(dt_) and pyval(dt_) in ("float", "float64", "double", "f8", "<f8", "d"))
+        if wide or is_pyconst(r_):
+            return r_
+        return call_method(it, r_, "astype", [dt_], {}, node, fr)
     if mod == "numpy" and fn == "transpose" and args:
         ax_ = kwargs.get("axes", args[1] if len(args) > 1 else None)
         if ax_ is not None:
@@ -483,7 +493,16 @@ def call_numpy(it, name, mod, fn, args, kwargs, node, fr):
         u.unique_of = v
         return u
     if fn in ("isin", "in1d") and len(args) >= 2:
-        return Val(call("isin", to_term(args[0]), to_term(args[1])), space=getattr(args[0], "space", None))
+        au_, inv_ = kwargs.get("assume_unique"), kwargs.get("invert")
+        head_ = "isin"
+        if au_ is not None and not (is_pyconst(au_) and pyval(au_) is False):
+            head_ = "isin_assume_unique"  # only equal to isin when neither array repeats a value
+        r_ = Val(call(head_, to_term(args[0]), to_term(args[1])), space=getattr(args[0], "space", None))
+        if inv_ is not None and not (is_pyconst(inv_) and pyval(inv_) is False):
+            if not is_pyconst(inv_):
+                raise Unsupported("numpy.isin(invert=<expression>)", node)
+            r_ = Val(mk("not", r_.term), space=r_.space)
+        return r_
     if fn == "isnan" and args:
         return map1(lambda t: call("isnan", t), args[0])
     if fn == "power" and len(args) == 2:
